@@ -1,0 +1,130 @@
+//go:build verif
+// +build verif
+
+// Verification shim for property C09 (partition tokens, routing keys). Add-only, compiled only with
+// the `verif` build tag. Thin exported wrappers around unexported code; no logic of its own.
+
+package gocql
+
+import (
+	"context"
+	"math/big"
+
+	"github.com/gocql/gocql/internal/lru"
+	"github.com/gocql/gocql/internal/murmur"
+	"github.com/gocql/gocql/internal/streams"
+)
+
+// VerifC09Murmur3H1 re-exports internal/murmur.Murmur3H1.
+func VerifC09Murmur3H1(key []byte) int64 { return murmur.Murmur3H1(key) }
+
+// VerifC09Partitioner wraps the partitioner that newTokenRing selects for a partitioner class name.
+type VerifC09Partitioner struct{ p partitioner }
+
+// VerifC09Token wraps a token.
+type VerifC09Token struct{ t token }
+
+// VerifC09NewPartitioner goes through newTokenRing so that the name -> partitioner selection is the real one.
+func VerifC09NewPartitioner(name string) (VerifC09Partitioner, error) {
+	r, err := newTokenRing(name, nil)
+	if err != nil {
+		return VerifC09Partitioner{}, err
+	}
+	return VerifC09Partitioner{r.partitioner}, nil
+}
+
+func (p VerifC09Partitioner) Name() string                  { return p.p.Name() }
+func (p VerifC09Partitioner) Hash(key []byte) VerifC09Token { return VerifC09Token{p.p.Hash(key)} }
+func (p VerifC09Partitioner) ParseString(s string) VerifC09Token {
+	return VerifC09Token{p.p.ParseString(s)}
+}
+
+func (t VerifC09Token) String() string            { return t.t.String() }
+func (t VerifC09Token) Less(o VerifC09Token) bool { return t.t.Less(o.t) }
+
+// Raw exposes the representation: kind 0 = murmur3Token (i), 1 = orderedToken (b), 2 = randomToken (n, a copy).
+func (t VerifC09Token) Raw() (kind int, i int64, b []byte, n *big.Int) {
+	switch x := t.t.(type) {
+	case murmur3Token:
+		return 0, int64(x), nil, nil
+	case orderedToken:
+		return 1, 0, []byte(x), nil
+	case *randomToken:
+		return 2, 0, nil, new(big.Int).Set((*big.Int)(x))
+	}
+	return -1, 0, nil, nil
+}
+
+// VerifC09TokenOrder builds a token ring from (host index, token string) pairs through newTokenRing
+// (ParseString + sort.Sort with the tokens' Less) and returns the token strings in ring order.
+func VerifC09TokenOrder(partitioner string, tokens []string) ([]string, error) {
+	h := &HostInfo{hostId: "h", tokens: tokens}
+	r, err := newTokenRing(partitioner, []*HostInfo{h})
+	if err != nil {
+		return nil, err
+	}
+	out := make([]string, len(r.tokens))
+	for i, ht := range r.tokens {
+		out[i] = ht.token.String()
+	}
+	return out, nil
+}
+
+// VerifC09CreateRoutingKey calls createRoutingKey with a constructed routingKeyInfo (nil when isNil).
+func VerifC09CreateRoutingKey(isNil bool, indexes []int, types []TypeInfo, values []interface{}) ([]byte, error) {
+	if isNil {
+		return createRoutingKey(nil, values)
+	}
+	return createRoutingKey(&routingKeyInfo{indexes: indexes, types: types}, values)
+}
+
+// VerifC09Prepared describes what a PREPARED result would have carried for one statement.
+type VerifC09Prepared struct {
+	Stmt        string
+	ColCount    int
+	Columns     []ColumnInfo
+	PKeyColumns []int // protocol v4+: partition key bind indexes
+	Keyspace    string
+	Table       string
+}
+
+// VerifC09NewSession builds a Session that has never dialled: one up host with one (socket-less) Conn
+// in its pool, the prepared-statement cache pre-loaded with the given statements (as completed
+// in-flight entries, exactly what Conn.prepareStatement leaves behind) and the schema cache pre-loaded
+// with the given keyspaces. Query.GetRoutingKey / Batch.GetRoutingKey then run the real
+// Session.routingKeyInfo and createRoutingKey without any network.
+func VerifC09NewSession(preps []VerifC09Prepared, keyspaces []*KeyspaceMetadata) *Session {
+	s := &Session{
+		stmtsLRU: &preparedLRU{lru: lru.New(1000)},
+		logger:   &defaultLogger{},
+	}
+	s.ctx, s.cancel = context.WithCancel(context.Background())
+	s.routingKeyInfoCache.lru = lru.New(1000)
+	s.schemaDescriber = newSchemaDescriber(s)
+	for _, k := range keyspaces {
+		s.schemaDescriber.cache[k.Name] = k
+	}
+	host := &HostInfo{hostId: "verif-c09-host", state: NodeUp}
+	s.ring.hosts = map[string]*HostInfo{host.hostId: host}
+	conn := &Conn{session: s, host: host, version: protoVersion4, streams: streams.New(protoVersion4), ctx: s.ctx}
+	hp := &hostConnPool{session: s, host: host, size: 1, conns: []*Conn{conn}, logger: s.logger}
+	s.pool = &policyConnPool{session: s, hostConnPools: map[string]*hostConnPool{host.hostId: hp}}
+	for _, p := range preps {
+		fl := &inflightPrepare{done: make(chan struct{})}
+		fl.preparedStatment = &preparedStatment{
+			id: []byte("verif"),
+			request: preparedMetadata{
+				resultMetadata: resultMetadata{columns: p.Columns, colCount: p.ColCount, actualColCount: p.ColCount},
+				pkeyColumns:    p.PKeyColumns,
+				keyspace:       p.Keyspace,
+				table:          p.Table,
+			},
+		}
+		close(fl.done)
+		s.stmtsLRU.add(s.stmtsLRU.keyFor(host.HostID(), conn.currentKeyspace, p.Stmt), fl)
+	}
+	return s
+}
+
+// VerifC09BatchSetRoutingKey sets the unexported Batch.routingKey (there is no public setter).
+func VerifC09BatchSetRoutingKey(b *Batch, key []byte) { b.routingKey = key }
